@@ -69,47 +69,49 @@ func init() {
 			ssn := c.field("chunkSet", "ssn")
 			isFrag := c.Fn("chunkPayloadData.isFragmented")
 			n := 0
-			forEachInstr(pw, func(in ssa.Instruction) {
-				phi, ok := in.(*ssa.Phi)
-				if !ok || typeShort(phi.Type()) != "*chunkSet" {
-					return
-				}
-				for i, e := range phi.Edges {
-					if _, viaPhi := e.(*ssa.Phi); viaPhi || !mentionsElemOf(e, ordered, 0, map[ssa.Value]bool{}) {
-						continue // only the edge on which a queued set is picked
+			for _, pwg := range c.P.Region(pw) {
+				forEachInstr(pwg, func(in ssa.Instruction) {
+					phi, ok := in.(*ssa.Phi)
+					if !ok || typeShort(phi.Type()) != "*chunkSet" {
+						return
 					}
-					n++
-					pred := phi.Block().Preds[i]
-					facts := DomFacts(pred)
-					if len(pred.Instrs) > 0 {
-						if ifi, ok := pred.Instrs[len(pred.Instrs)-1].(*ssa.If); ok && pred.Succs[0] != pred.Succs[1] {
-							cc, tt := normCond(ifi.Cond, pred.Succs[0] == phi.Block())
-							facts = append(facts, condFact{cc, tt})
+					for i, e := range phi.Edges {
+						if _, viaPhi := e.(*ssa.Phi); viaPhi || !mentionsElemOf(e, ordered, 0, map[ssa.Value]bool{}) {
+							continue // only the edge on which a queued set is picked
 						}
+						n++
+						pred := phi.Block().Preds[i]
+						facts := DomFacts(pred)
+						if len(pred.Instrs) > 0 {
+							if ifi, ok := pred.Instrs[len(pred.Instrs)-1].(*ssa.If); ok && pred.Succs[0] != pred.Succs[1] {
+								cc, tt := normCond(ifi.Cond, pred.Succs[0] == phi.Block())
+								facts = append(facts, condFact{cc, tt})
+							}
+						}
+						var extra []string
+						okSSN, okFrag := false, false
+						for _, f := range facts {
+							if isLoopBound(f.Cond) || isRangeOK(f.Cond) {
+								continue
+							}
+							if !mentionsElemOf(f.Cond, ordered, 0, map[ssa.Value]bool{}) {
+								continue // says nothing about which queued set is chosen
+							}
+							switch {
+							case CmpCond(token.EQL, IsLoadOf(ssn), AnyV)(f.Cond, f.Taken):
+								okSSN = true
+							case CallCond(isFrag, true)(f.Cond, f.Taken):
+								okFrag = true
+							case phiExplainedBy(f.Cond, facts):
+							default:
+								extra = append(extra, fmt.Sprintf("%s=%v", shortValue(c.P, f.Cond), f.Taken))
+							}
+						}
+						c.Check(okSSN && len(extra) == 0, "set-match", c.Pos(phi), fmt.Sprintf("existing set chosen by set.ssn == chunk.ssn (first-chunk-is-fragment test present: %v) and nothing else about the set", okFrag),
+							"the existing set of the message is chosen (or passed over) by another property of the queued set: "+strings.Join(extra, ", ")+" — fragments of one message can end up in two sets")
 					}
-					var extra []string
-					okSSN, okFrag := false, false
-					for _, f := range facts {
-						if isLoopBound(f.Cond) || isRangeOK(f.Cond) {
-							continue
-						}
-						if !mentionsElemOf(f.Cond, ordered, 0, map[ssa.Value]bool{}) {
-							continue // says nothing about which queued set is chosen
-						}
-						switch {
-						case CmpCond(token.EQL, IsLoadOf(ssn), AnyV)(f.Cond, f.Taken):
-							okSSN = true
-						case CallCond(isFrag, true)(f.Cond, f.Taken):
-							okFrag = true
-						case phiExplainedBy(f.Cond, facts):
-						default:
-							extra = append(extra, fmt.Sprintf("%s=%v", shortValue(c.P, f.Cond), f.Taken))
-						}
-					}
-					c.Check(okSSN && len(extra) == 0, "set-match", c.Pos(phi), fmt.Sprintf("existing set chosen by set.ssn == chunk.ssn (first-chunk-is-fragment test present: %v) and nothing else about the set", okFrag),
-						"the existing set of the message is chosen (or passed over) by another property of the queued set: "+strings.Join(extra, ", ")+" — fragments of one message can end up in two sets")
-				}
-			})
+				})
+			}
 			c.Check(n >= 1, "set-match-site", c.P.Pos(pw.Pos()), fmt.Sprintf("%d lookup site(s) of an existing ordered set", n), "no lookup of an existing ordered set found in pushWithError")
 		}})
 
